@@ -7,6 +7,7 @@ from asyncio import (
     get_running_loop,
 )
 from collections.abc import Callable, Coroutine
+from inspect import markcoroutinefunction
 
 from haiway.utils.mimic import mimic_function
 
@@ -60,6 +61,9 @@ class _AsyncTimeout[**Args, Result]:
     ) -> None:
         self._function: Callable[Args, Coroutine[None, None, Result]] = function
         self._timeout: float = timeout
+
+        # async callable objects are not recognized as coroutine functions unless marked
+        markcoroutinefunction(self)
 
         # mimic function attributes if able
         mimic_function(function, within=self)
